@@ -355,7 +355,11 @@ type zoneFn struct {
 	blockFacts map[*ssa.BasicBlock]FactSet
 	sub        map[ssa.Value]ssa.Value // callee value -> caller value, while facts of a helper are being applied
 	subDepth   int
-	caseSel    map[*ssa.Call]int // helper call -> selected return case (case analysis); absent = join of all cases
+	barrier    func(ssa.Instruction) bool // reach mode: executing such an instruction ends the path
+	target     func(ssa.Instruction) bool // reach mode: instructions whose reachability is asked
+	hits       map[ssa.Instruction]bool
+	seeds      map[*ssa.BasicBlock]*zstate // extra entry states (reach mode)
+	caseSel    map[*ssa.Call]int           // helper call -> selected return case (case analysis); absent = join of all cases
 	summaries  map[*ssa.Function][]retCase
 }
 
@@ -1217,6 +1221,48 @@ func (z *zoneFn) edgeOut(end *zstate, pred *ssa.BasicBlock, k int) *zstate {
 			s.add(a.tmp, a.dst, 0)
 		}
 	}
+	// bytes of immutable strings indexed through a phi: pkg[i'] is pkg[src+k] when i' := src+k on this edge
+	for _, in := range succ.Instrs {
+		ph, ok := in.(*ssa.Phi)
+		if !ok {
+			break
+		}
+		dst, own := z.vars[ssa.Value(ph)]
+		if !own || s.bottom() {
+			continue
+		}
+		src, ks, ok := z.lin(ph.Edges[pidx])
+		if !ok || src == 0 || src == dst {
+			continue
+		}
+		// the source root must not itself have been re-assigned on this edge
+		reassigned := false
+		for _, a := range as {
+			if a.dst == src {
+				reassigned = true
+			}
+		}
+		if reassigned {
+			continue
+		}
+		for k, md := range z.mems {
+			if k.root != dst {
+				continue
+			}
+			if ms, ok := z.mems[memKey{k.seq, src, k.off + ks}]; ok && ms != md {
+				s.add(md, ms, 0)
+				s.add(ms, md, 0)
+				for nk := range s.neq {
+					switch {
+					case nk.i == ms && nk.j != md:
+						s.addNeq(md, nk.j, nk.c)
+					case nk.j == ms && nk.i != md:
+						s.addNeq(nk.i, md, nk.c)
+					}
+				}
+			}
+		}
+	}
 	for _, a := range as {
 		if a.tmp >= 0 {
 			s.forget(a.tmp)
@@ -1234,10 +1280,7 @@ func (z *zoneFn) edgeOut(end *zstate, pred *ssa.BasicBlock, k int) *zstate {
 }
 
 // ZoneAnalyze runs the analysis on fn.
-func (p *Prog) ZoneAnalyze(fn *ssa.Function) *ZoneResult {
-	if fn.Blocks == nil {
-		return nil
-	}
+func (p *Prog) zoneSetup(fn *ssa.Function) (*zoneFn, *ZoneResult, *zstate, map[*ssa.BasicBlock]bool) {
 	z := &zoneFn{p: p, fn: fn, vars: map[ssa.Value]int{}, lens: map[ssa.Value]int{}, mems: map[memKey]int{}, memOf: map[int][]int{}, in: map[*ssa.BasicBlock]*zstate{}}
 	z.newVar("0")
 	// prescan: allocate variables
@@ -1310,7 +1353,7 @@ func (p *Prog) ZoneAnalyze(fn *ssa.Function) *ZoneResult {
 	n := len(z.names)
 	res := &ZoneResult{Fn: fn, Vars: n}
 	if n > 400 {
-		return res // too large: nothing proved (callers treat missing sites as not decided)
+		return nil, res, nil, nil // too large: nothing proved (callers treat missing sites as not decided)
 	}
 
 	// reverse postorder
@@ -1348,6 +1391,20 @@ func (p *Prog) ZoneAnalyze(fn *ssa.Function) *ZoneResult {
 		}
 	}
 	z.blockFacts = p.Facts(fn)
+	return z, res, entry, seen
+}
+
+// ZoneAnalyze runs the analysis on fn.
+func (p *Prog) ZoneAnalyze(fn *ssa.Function) *ZoneResult {
+	if fn.Blocks == nil {
+		return nil
+	}
+	z, res, entry, seen := p.zoneSetup(fn)
+	if z == nil {
+		return res
+	}
+	n := len(z.names)
+	_ = n
 	// global solution
 	ins, outs, iters := z.solve(z.rpo, map[*ssa.BasicBlock]*zstate{fn.Blocks[0]: entry})
 	res.Iter = iters
@@ -1455,6 +1512,61 @@ func (p *Prog) ZoneAnalyze(fn *ssa.Function) *ZoneResult {
 	return res
 }
 
+// ZoneReach answers a path-feasibility question with the zone analysis: starting right after instruction `from`
+// (in the state the global solution establishes there), which instructions satisfying `target` can be reached without
+// first executing an instruction satisfying `barrier`? Infeasible branches (conditions the state contradicts) are not
+// followed. Returns nil, false when the function is too large to analyse.
+func (p *Prog) ZoneReach(from ssa.Instruction, barrier, target func(ssa.Instruction) bool) ([]ssa.Instruction, bool) {
+	fn := from.Parent()
+	z, _, entry, _ := p.zoneSetup(fn)
+	if z == nil {
+		return nil, false
+	}
+	ins, _, _ := z.solve(z.rpo, map[*ssa.BasicBlock]*zstate{fn.Blocks[0]: entry})
+	fb := from.Block()
+	s := ins[fb].clone()
+	if !s.bottom() {
+		z.applyFacts(s, z.blockFacts[fb])
+		z.applyFacts(s, p.FactsAt(fb.Instrs[0]))
+	}
+	z.hits = map[ssa.Instruction]bool{}
+	after := false
+	for _, in := range fb.Instrs {
+		if after {
+			if !s.bottom() && target(in) {
+				z.hits[in] = true
+			}
+			if barrier(in) {
+				s.m, s.neq = nil, nil
+			}
+		}
+		z.transfer(s, in, nil)
+		if in == from {
+			after = true
+		}
+	}
+	z.seeds = map[*ssa.BasicBlock]*zstate{}
+	for k, succ := range fb.Succs {
+		o := z.edgeOut(s, fb, k)
+		if o.bottom() {
+			continue
+		}
+		if old, ok := z.seeds[succ]; ok {
+			z.seeds[succ] = zjoin(old, o)
+		} else {
+			z.seeds[succ] = o
+		}
+	}
+	z.barrier, z.target = barrier, target
+	z.solve(z.rpo, map[*ssa.BasicBlock]*zstate{})
+	var out []ssa.Instruction
+	for in := range z.hits {
+		out = append(out, in)
+	}
+	sort.Slice(out, func(i, j int) bool { return out[i].Pos() < out[j].Pos() })
+	return out, true
+}
+
 // entryStates lists the states with which block m can be entered, one per incoming edge; an edge from a merge block
 // that merely jumps to m is expanded into that block's own incoming edges (up to three levels), so that the case
 // analysis distinguishes the paths through short-circuit && / || diamonds.
@@ -1513,6 +1625,9 @@ func (z *zoneFn) solve(blocks []*ssa.BasicBlock, fixed map[*ssa.BasicBlock]*zsta
 			return f.clone()
 		}
 		acc := &zstate{n: n}
+		if sd, ok := z.seeds[b]; ok {
+			acc = zjoin(acc, sd)
+		}
 		done := map[*ssa.BasicBlock]bool{}
 		for _, q := range b.Preds {
 			if done[q] || !inSet[q] {
@@ -1596,6 +1711,12 @@ func (z *zoneFn) flow(b *ssa.BasicBlock, in *zstate, sites *[]BoundSite, outs ma
 		}
 	}
 	for _, in := range b.Instrs {
+		if z.target != nil && !s.bottom() && z.target(in) {
+			z.hits[in] = true
+		}
+		if z.barrier != nil && z.barrier(in) {
+			s.m, s.neq = nil, nil
+		}
 		z.transfer(s, in, sites)
 	}
 	if outs != nil {
